@@ -858,6 +858,12 @@ func (d *drv) concurrent(sc vh.Scenario, rec *vh.Rec, rng interface{ Intn(int) i
 						}
 						_, err := sk.WorkSpaceInfos(fl)
 						return err
+					case "StartK":
+						sk.Start() // "already started" is an answer, not a failure
+						return nil
+					case "StopK":
+						sk.Stop()
+						return nil
 					case "Proofs":
 						ctx, cancel := context.WithTimeout(context.Background(), 2*time.Second)
 						defer cancel()
@@ -892,7 +898,12 @@ func (d *drv) concurrent(sc vh.Scenario, rec *vh.Rec, rng interface{ Intn(int) i
 		}
 	}
 	if res == "ok" {
-		if r, _ := call(func() error { return sk.Stop() }); r != "ok" {
+		if r, _ := call(func() error {
+			if sk.Started() {
+				return sk.Stop()
+			}
+			return nil
+		}); r != "ok" {
 			res, bad = r, append(bad, "stopping the keeper: "+r)
 		}
 	}
